@@ -12,7 +12,7 @@ CLAIMS = {
    note="Trusted: Coq kernel, go2coq + GoSem.v, extraction (ExtrOcamlBasic), the differential harness. Wall-clock linearity is observed, not proved.",
    technique="Coq proof over translator-generated definitions + differential correspondence"),
  "C12": dict(
-   text="Theorems in Properties/C12.v prove, for every 0 <= n < 2^64 and both prefix systems, about the Coq model of FormatNumber: exact printing below the first prefix, largest-prefix choice, half-unit error bound, >= 3 significant digits, numeral width <= 5, and monotonicity of the rendered magnitude (case analysis over all prefix/precision regimes with rhe_mono). The model is tied to the code by exact string comparison on ~10^5 boundary-structured values per run, and every implementation output is judged against the property text with exact rationals.",
+   text="Theorems in Properties/C12.v prove, for every 0 <= n < 2^64 and both prefix systems, about the Coq model of FormatNumber: exact printing below the first prefix, largest-prefix choice, half-unit error bound, >= 3 significant digits, numeral width <= 5, and monotonicity of the rendered magnitude (case analysis over all prefix/precision regimes with rhe_mono). C12_contents_generated (tie T): gen/ContentsGen.v, regenerated on every run from the literal of HistorySize.contents() in sizes/output.go and the field widths in sizes/sizes.go, is proved equal to Output.contents (sections, order, symbols, names, value field and width, cited path field, humaner, unit, exact reference value), so the table theorems speak about the layout the Go source declares. The model is tied to the code by exact string comparison on ~10^5 boundary-structured values per run, and every implementation output is judged against the property text with exact rationals.",
    note="Trusted: Coq kernel, extraction, harness; fmt %d and bits.Mul64/Div64 are modelled as exact integer arithmetic. The double-rounding defect found by this check was repaired (fix: commit 8ecbac0 in /repo); C12_float_version_refuted documents it.",
    technique="Coq proof on hand-written executable model + differential correspondence + rational oracle"),
  "C16": dict(
@@ -51,7 +51,7 @@ CLAIMS = {
    technique="Coq proof + translator bridge + differential correspondence with git as reference parser"),
 
  "C11": dict(
-   text="Theorems on the model of sizes/output.go: C11_row_visible / C11_hidden_iff (a row is emitted iff saturated or alert >= threshold), C11_marker (int(alert) stars, 30 '!' above 30 or saturated), C11_monotone (raising the threshold only hides rows, markers unchanged), C11_verbose (threshold <= 0 shows every metric; uses non-negativity of the binary64 model), C11_empty, C11_saturated; C11_real_ratio_refuted: over the REAL ratio value/reference the visibility clause fails within one ulp of the threshold (known finding). Every table is also judged on exact rationals (row count = metrics with value/reference >= threshold or saturated, outside a 2^-50 band). Tie: TableString/JSON on synthetic vectors at k*ref-1, k*ref, k*ref+1, caps and zero x 18 thresholds: exact table bytes and exact levelOfConcern vs the model, JSON v2 value = v1 value, sub-sequence check across thresholds.",
+   text="Theorems on the model of sizes/output.go: C11_row_visible / C11_hidden_iff (a row is emitted iff saturated or alert >= threshold), C11_marker (int(alert) stars, 30 '!' above 30 or saturated), C11_monotone (raising the threshold only hides rows, markers unchanged), C11_verbose (threshold <= 0 shows every metric; uses non-negativity of the binary64 model), C11_empty, C11_saturated; C11_real_ratio_refuted: over the REAL ratio value/reference the visibility clause fails within one ulp of the threshold (known finding). C11_contents_generated (tie T): gen/ContentsGen.v, regenerated on every run from the literal of HistorySize.contents() in sizes/output.go and the field widths in sizes/sizes.go, is proved equal to Output.contents (sections, order, symbols, names, value field and width, cited path field, humaner, unit, exact reference value), so the table theorems speak about the layout the Go source declares. C11_every_field_once: each of the 22 quantities and 12 path slots is shown by exactly one item. Every table is also judged on exact rationals (row count = metrics with value/reference >= threshold or saturated, outside a 2^-50 band). Tie: TableString/JSON on synthetic vectors at k*ref-1, k*ref, k*ref+1, caps and zero x 18 thresholds: exact table bytes and exact levelOfConcern vs the model, JSON v2 value = v1 value, sub-sequence check across thresholds.",
    note="Trusted: Coq kernel, extraction, harness; float64(uint64), binary64 division, ParseFloat and fmt padding are modelled as correctly rounded / documented (Float64.v), validated by exact comparison on every run. Lifting of C11_monotone from items to whole tables (headers, blank rows) is checked by the sub-sequence test, not proved.",
    technique="Coq proof on executable model + differential correspondence on boundary vectors"),
  "C19": dict(
@@ -83,7 +83,7 @@ CLAIMS = {
    technique="Coq proof on invocation-trace model + race detector / repeated runs / directory hashing"),
 
  "C08": dict(
-   text="Theorems in Properties/C08.v on the model of setPath / the twelve path slots / InOrderPathResolver as a fold over the scan's event log: C08_witness_hash and C08_witness_full (with hash AND full names every cited object is the object of a record* call whose value equals the reported maximum; empty slot => maximum 0), C08_none, C08_slot_value; C08_events_consistent (every RecordTreeEntry/RecordCommit/RecordName call of the scan is a true fact about the repository, via an invariant of the deferred machine's listener lists and log, no assumption on the enumeration); C08_descriptions_resolve: the description built for every cited path is empty or resolves to exactly the cited object under Resolve.resolves, a stated model of the four `git rev-parse` spellings the descriptions use (atomic root name, 40-digit id, <rev>^{tree}, <rev>:<path> walked through trees), under the guards: no named root is a tree, commit-root names without ':', entry names unique / non-empty / not . or .. . Tie and judge: generated graphs with roots of every kind under all three name styles; cited ids must be reachable objects of the right kind attaining the value (independent python expansion); description strings compared with the model's for git's own enumeration and random legal orders; every description is passed to `git rev-parse --verify` in the same repository and must print the cited id (git is the judge of the resolves model).",
+   text="Theorems in Properties/C08.v on the model of setPath / the twelve path slots / InOrderPathResolver as a fold over the scan's event log: C08_witness_hash and C08_witness_full (with hash AND full names every cited object is the object of a record* call whose value equals the reported maximum; empty slot => maximum 0), C08_none, C08_slot_value; C08_events_consistent (every RecordTreeEntry/RecordCommit/RecordName call of the scan is a true fact about the repository, via an invariant of the deferred machine's listener lists and log, no assumption on the enumeration); C08_descriptions_resolve: the description built for every cited path is empty or resolves to exactly the cited object under Resolve.resolves, a stated model of the four `git rev-parse` spellings the descriptions use (atomic root name, 40-digit id, <rev>^{tree}, <rev>:<path> walked through trees), under the guards: no named root is a tree, commit-root names without ':', entry names unique / non-empty / not . or .. . C08_contents_generated (tie T): gen/ContentsGen.v, regenerated on every run from the literal of HistorySize.contents() in sizes/output.go and the field widths in sizes/sizes.go, is proved equal to Output.contents (sections, order, symbols, names, value field and width, cited path field, humaner, unit, exact reference value), so the table theorems speak about the layout the Go source declares. Tie and judge: generated graphs with roots of every kind under all three name styles; cited ids must be reachable objects of the right kind attaining the value (independent python expansion); description strings compared with the model's for git's own enumeration and random legal orders; every description is passed to `git rev-parse --verify` in the same repository and must print the cited id (git is the judge of the resolves model).",
    note="PARTIAL: `git rev-parse` is represented by a stated four-rule model, validated against real git on every run, not derived from git's source. Repaired: '???' descriptions (8ad2c16). Known finding: tree roots joined with '/' (exactly the case excluded by the guard no_tree_names).",
    technique="Coq proof (resolver link invariant, pigeonhole bound on parent chains, byte-exact rendering) + git rev-parse as judge + model/implementation string comparison"),
 }
